@@ -2392,6 +2392,14 @@ class SemanticAnalyzer(
                     )
                 # In case of error, Generic tvars will go first
                 declared_tvars = remove_dups(declared_tvars + all_tvars)
+                # A class can have only one TypeVarTuple (TypeInfo.add_type_vars relies on it).
+                seen_tvt = False
+                for tvar in declared_tvars.copy():
+                    if isinstance(tvar[1], TypeVarTupleExpr):
+                        if seen_tvt:
+                            self.fail("Can only use one type var tuple in a class def", context)
+                            declared_tvars.remove(tvar)
+                        seen_tvt = True
         else:
             declared_tvars = all_tvars
         for i in reversed(removed):
